@@ -105,16 +105,16 @@ theorem date_explode (E : Env) (hT : E.T.OK) (c : DateCfg) (hc : c.Integers) (s 
   refine ⟨⟨⟨.int y, .int y, fmtInt wy y⟩, ⟨.int m, .int m, fmtInt wm m⟩, ⟨.int d, .int d, fmtInt wd d⟩⟩, ?_, rfl, rfl, rfl, hcomp⟩
   rcases hx with hx | ⟨h, mi, sec, us, hx⟩ <;>
     simp [DateState.step, DateState.toElem, DateCfg.schema, Flatland.C04.setElem, hx, hky, hkm, hkd,
-      setScalar_int_member, fy, fm, fd, DateState.ofElem]
+      Flatland.C04.Proofs.scalarSetTrace_eq, setScalar_int_member, fy, fm, fd, DateState.ofElem]
 
-theorem findSome_map_ok {α} (f : Except Raise SetResult → Option α) (hf : ∀ r, f (.ok r) = none)
-    (rs : List SetResult) : (rs.map Except.ok).findSome? f = none := by
+theorem findSome_map_ok {α β} (f : Except Raise β → Option α) (hf : ∀ r, f (.ok r) = none)
+    (rs : List β) : (rs.map Except.ok).findSome? f = none := by
   induction rs with
   | nil => rfl
   | cons r t ih => simp [List.findSome?, hf, ih]
 
-theorem filterMap_map_ok (f : Except Raise SetResult → Option SetResult) (hf : ∀ r, f (.ok r) = some r)
-    (rs : List SetResult) : (rs.map Except.ok).filterMap f = rs := by
+theorem filterMap_map_ok {β} (f : Except Raise β → Option β) (hf : ∀ r, f (.ok r) = some r)
+    (rs : List β) : (rs.map Except.ok).filterMap f = rs := by
   induction rs with
   | nil => rfl
   | cons r t ih => simp [List.filterMap, hf, ih]
@@ -129,13 +129,27 @@ theorem settled_results (E : Env) (k : Kind) (s : JoinedState) (h : Settled E k 
     obtain ⟨rs, h1, h2⟩ := ih (fun x hx => h x (List.mem_cons_of_mem _ hx))
     exact ⟨r :: rs, by simp [hr, h1], by simp [hu, h2]⟩
 
+theorem settled_traces (E : Env) (k : Kind) (s : JoinedState) (h : Settled E k s) :
+    ∃ rs : List SetResult,
+      s.map (fun st => Flatland.C04.scalarSetTrace E k Flatland.C04.blankState (.str st.u)) =
+        (rs.map fun r => (r.st, r.flag, [(r.flag, r.st)])).map .ok ∧
+      rs.map (·.st.u) = s.map (·.u) := by
+  induction s with
+  | nil => exact ⟨[], rfl, rfl⟩
+  | cons st t ih =>
+    obtain ⟨r, hr, hu⟩ := h st (by simp)
+    obtain ⟨rs, h1, h2⟩ := ih (fun x hx => h x (List.mem_cons_of_mem _ hx))
+    refine ⟨r :: rs, ?_, by simp [hu, h2]⟩
+    simp only [List.map_cons, h1]
+    rw [Flatland.C04.Proofs.scalarSetTrace_eq, hr]
+
 /-- **joined_reset** (partial: `SplitStable`, `NoEmptyTextUnderPrune`; see KF-C18-a / KF-C18-c) —
     setting a JoinedString to its own value reproduces that value. -/
 theorem joined_reset_partial (E : Env) (c : JoinedCfg) (s : JoinedState)
     (hsplit : SplitStable E.T c s) (hprune : NoEmptyTextUnderPrune c s) (hset : Settled E c.member s) :
     ∃ s' flag, joinedSet E c s (.leaf (.str (joinedValue c s))) = .ok (s', some flag) ∧
       joinedValue c s' = joinedValue c s := by
-  obtain ⟨rs, h1, h2⟩ := settled_results E c.member s hset
+  obtain ⟨rs, h1, h2⟩ := settled_traces E c.member s hset
   have hkept : (List.map Native.str (s.map (·.u))).filter (fun v => !(c.prune && !pyTruthy v)) =
       List.map Native.str (s.map (·.u)) := by
     apply List.filter_eq_self.mpr
@@ -152,11 +166,13 @@ theorem joined_reset_partial (E : Env) (c : JoinedCfg) (s : JoinedState)
     simp only [Flatland.C04.setElem]
     unfold SplitStable at hsplit
     simp only [hsplit, hkept]
-    have : List.map (fun v => setScalar E c.member v) (List.map Native.str (List.map (fun x => x.u) s)) = rs.map .ok := by
+    have : List.map (fun v => Flatland.C04.scalarSetTrace E c.member Flatland.C04.blankState v)
+        (List.map Native.str (List.map (fun x => x.u) s)) =
+        (rs.map fun r => (r.st, r.flag, [(r.flag, r.st)])).map .ok := by
       rw [← h1]; simp [List.map_map, Function.comp_def]
     simp only [this]
     rw [findSome_map_ok _ (fun _ => rfl), filterMap_map_ok _ (fun _ => rfl)]
-    simp only [joinedOfElem]
+    simp [joinedOfElem, List.map_map, Function.comp_def, List.all_map]
   · unfold joinedValue
     simp only [List.map_map]
     have : (List.map ((fun x => x.u) ∘ fun x => x.st) rs) = rs.map (·.st.u) := by simp [Function.comp_def]
@@ -299,7 +315,7 @@ theorem joined_reset_empty (E : Env) (c : JoinedCfg)
   · cases hp : c.prune with
     | true => exact ⟨[], true, by simp [pyTruthy, joinedOfElem, Flatland.C04.indexed], rfl⟩
     | false =>
-      refine ⟨[r.st], r.flag, by simp [hr, joinedOfElem], ?_⟩
+      refine ⟨[r.st], r.flag, by simp [Flatland.C04.Proofs.scalarSetTrace_eq, hr, joinedOfElem], ?_⟩
       simp [joinedValue, joinStr, hu]
 
 /-- **joined_reset** for the common configuration, every state including the empty one -/
